@@ -358,7 +358,7 @@ func runC08(tier string, seed uint64) int {
 	rp := newReport("C08", tier, seed)
 	nGen, nCorpus, K := 120, 16, 10
 	if tier == "thorough" {
-		nGen, nCorpus, K = 1500, 1000000, 24
+		nGen, nCorpus, K = 4000, 1000000, 24
 	}
 	if v := envInt("VERIF_C08_GEN"); v > 0 {
 		nGen = v
